@@ -361,6 +361,26 @@ func (w *World) VerifyFunc(key string) *Unit {
 			o.Group = c.Group
 		}
 	}
+	// determinacy: the postconditions admit at most one result (value results only)
+	if sp.Deterministic {
+		var second []Val
+		for i, r := range results {
+			second = append(second, Val{T: r.T, Term: vc.fresh(fmt.Sprintf("other_result%d", i), vc.S.Sort(r.T))})
+		}
+		env2 := fr.specEnvAt(retState, nil)
+		env2.old = entry
+		env2.results = second
+		env2.resultNames = resultNames(fn, sp)
+		var hyps []string
+		for _, c := range sp.Ensures {
+			hyps = append(hyps, env.compileBool(c.Expr), env2.compileBool(c.Expr))
+		}
+		var eqs []string
+		for i, r := range results {
+			eqs = append(eqs, eq(vc.term(retState, r), second[i].Term))
+		}
+		vc.oblige(key, "deterministic", "result", append([]string{"C08"}, props...), retCond, implies(and(hyps...), and(eqs...)))
+	}
 	// frame: pointer parameters may change only where `modifies` says
 	for _, p := range fn.Params {
 		v := fr.env[p]
